@@ -15,14 +15,54 @@ Accepted subset (see the tr_* functions):
   statements  return E | raise Exc | if C: <terminating block> [else: <terminating block>] | x = E | a, b = E
               | x.remove(E) | nested pure `def` | `while (x := f(v)) is not None:` with a body of assignments to v
               | `try: return A / B  except ZeroDivisionError: return np.inf|np.nan`
+              | s.update(ITERABLE) | `acc = []` + `for x in L:` accumulating loop            (added, see below)
   expressions names, 0 / 1 / True / False / string literals, attribute access on bound classes, calls of translated
               functions / methods / constructors, len set sorted list complex next, x[y] on Network / LabelMapping /
               vector / dict comprehension, v[:n], v[-n:], == != in `not in`, np.abs(x) > 0, np.abs(x) >= 0, and or not,
               + - * / unary -, `a if c else b`, list / set / dict comprehensions and generator-in-next with one
               `for` and at most one `if`, pairs, a.union(b), z.conjugate()
+              | dict(zip(KS, VS)) | LabelMapping(dict(zip(X, range(len(X))))) | next(filter(f, L), None)
+              | function values: f, lambda, calls of Callable parameters                     (added, see below)
 Expressions that can raise (Network(...), network[id], mapping[k], calls of raising functions) are sequenced with
 `bind` in Python evaluation order; they are refused inside comprehensions, lambdas and the non-first operands of
-and / or / if-else (where hoisting would change which exception is raised)."""
+and / or / if-else (where hoisting would change which exception is raised).
+
+Additions made so that behaviour-preserving refactorings of the six files stay inside the subset (every one is an
+enumerated shape with a fixed Gallina meaning; everything else is still refused):
+  * module-private helper `def _name(...)` at module level: translated ON DEMAND, as a definition of its own, when a
+    translated definition calls it (same rules as any other function); `#[global] Hint Unfold _name : py_private.` is
+    emitted after it so that the proofs about its callers can look through it without knowing its name.  A private
+    helper that no translated definition reaches is not translated and is listed in a comment at the end of the output:
+    it can only be used by the untranslated part (SKIP_FUNCS / SKIP_METHODS / SKIP_CLASSES); every use from translated
+    code is a call, and a call translates the callee.  The public functions are still all translated by name.
+  * `@staticmethod def _name(...)` inside the two solution classes: not translated (Gen.is_static_helper).  Translated
+    code cannot reach it: `self._name` is refused by Gen.member (only fields, properties and methods are members) and
+    `Class._name` is refused as an attribute of a global; so it can only serve __post_init__ (SKIP_METHODS).
+  * annotation `Callable[[T1, ..., Tn], R]` (typing.Callable) on a parameter: the type T1 -> ... -> Tn -> R of PURE
+    function values.  Values of that type: the name of a nested def or of a translated module-level function that cannot
+    raise and has exactly that signature (fun_value), `lambda x1 ... xn: E` with E pure (only where such a type is
+    expected, i.e. as an argument), and parameters of that type.  `f(a1, ..., an)` on such a parameter is application.
+  * `next(filter(f, L), None)`, f a function value label/branch -> bool, L a list  ->  `find f L`
+    (the same meaning as the accepted `next((x for x in L if f(x)), None)`).
+  * `dict(zip(KS, VS))`, KS a list of strings, VS a list  ->  `combine KS VS`, an association list in insertion order read
+    by `dict_item` (last entry of a key wins), exactly as `{k: v for ...}`; zip and combine both stop at the shorter list.
+  * `LabelMapping(dict(zip(X, range(len(X)))))`, X ONE local list of strings named twice  ->  `enum_mapping X`: the same
+    dict as the accepted `{k: v for v, k in enumerate(X)}`.
+  * `s.update(ITERABLE)` as a statement, s a local set of strings bound by a set comprehension / set(...) and not read as a
+    value since (private object, see Env.fresh_lists)  ->  `let s' := set_union s' (set_of_list ...)`.  ITERABLE: a
+    generator expression (one `for`, at most one `if`), a list of strings, or a set.
+  * `acc = []` immediately followed by `for x in L: BODY` (tr_acc_loop)  ->  `let acc' := flat_map (fun x' => ...) L`, the
+    function returning the values one iteration appends, in order.  BODY: `acc.append(E)`, `v = E` for a new local of the
+    iteration, `continue` at the end of a block, `if C: ... [else: ...]` (followed by further statements only when its
+    first branch ends in `continue`).  All expressions pure; `acc` cannot be read in BODY; BODY cannot assign a name that
+    exists outside the loop, and the loop variable / locals of BODY are unknown after the loop (a later use is refused).
+  * builtins used by these shapes (filter, dict, zip, range, len, list, set) must not be shadowed (builtin_call); note that
+    label_mapping.py defines its own `filter`.
+Two refusals were added for aliasing that the let-translation cannot express (they do not affect the unmodified source):
+  * x.remove(...) / s.update(...) are refused once the local has been read as a value after it was bound to the fresh
+    object (the object may then be reachable from another name or from a constructed Network);
+  * rebinding or mutating a local after a nested def that reads it was defined is refused (Env.captured): the Gallina
+    closure captures the value at definition time, a Python closure sees the later value."""
 import ast
 import os
 
@@ -53,6 +93,15 @@ def TInt(n):
     return ('int', n)
 
 
+def TFun(args, ret):
+    """a pure function value (Callable[[args], ret]): a global / local pure function, a lambda, a parameter"""
+    return ('fun', tuple(args), ret)
+
+
+def is_fun(t):
+    return isinstance(t, tuple) and t[0] == 'fun'
+
+
 VEC = TList(K)
 
 
@@ -70,6 +119,8 @@ def coq_ty(t):
         return f'({coq_ty(t[1])} * {coq_ty(t[2])})'
     elif t[0] == 'dict':
         return f'list (label * {coq_ty(t[1])})'
+    elif t[0] == 'fun':
+        return '(' + ' -> '.join([par(coq_ty(a)) for a in t[1]] + [par(coq_ty(t[2]))]) + ')'
     raise Unsupported(f'no Coq type for {t!r}')
 
 
@@ -216,6 +267,11 @@ class Mod:
                 raise U(st, self.path, f'top-level statement {type(st).__name__}')
 
 
+def is_private(name):
+    """module-private helper by the Python naming convention: _name (not __dunder__)"""
+    return name.startswith('_') and not name.startswith('__')
+
+
 def decorators(node, path, allowed):
     out = []
     for d in node.decorator_list:
@@ -250,7 +306,11 @@ class Env:
         self.nolift = 0       # > 0: inside a lambda or a guarded operand
         self.state = state    # per function: tmp counter, mode pure|monadic, monadic (seen a raising construct), ret, name
         self.selffields = {}
-        self.fresh_lists = set()    # locals bound to a freshly built list (mutation by .remove cannot be seen elsewhere)
+        # locals bound to a freshly built list / set object -> identity token of that object.  The object is "private" (its
+        # mutation by .remove / .update cannot be seen through any other name) until the local is read as a value; reads are
+        # recorded in state['escaped'] (see tr_expr, ast.Name)
+        self.fresh_lists = {}
+        self.captured = set()       # outer locals read by a nested def: rebinding / mutating them later is refused
 
     @property
     def path(self):
@@ -260,7 +320,13 @@ class Env:
         e = Env(self.gen, self.mod, self.state)
         e.vars, e.localfuns, e.nolift = dict(self.vars), dict(self.localfuns), self.nolift
         e.selffields = self.selffields
-        e.fresh_lists = set(self.fresh_lists)
+        e.fresh_lists = dict(self.fresh_lists)
+        e.captured = set(self.captured)
+        return e
+
+    def child_of_loop(self):
+        e = self.child()
+        e.pending = self.pending
         return e
 
     def fresh(self):
@@ -270,6 +336,9 @@ class Env:
     def bind_var(self, name, ty, node=None):
         if not ident_ok(name):
             raise U(node, self.path, f'identifier {name!r}')
+        if name in self.captured:
+            raise U(node, self.path, f'{name} is rebound / mutated after a nested function that reads it was defined '
+                                     f'(the closure would see the new value)')
         self.vars[name] = (name + "'", ty)
         return name + "'"
 
@@ -282,6 +351,10 @@ class Env:
         t = self.fresh()
         self.pending.append((t, term))
         return t, ty
+
+    def is_private_object(self, name):
+        tok = self.fresh_lists.get(name)
+        return tok is not None and tok not in self.state.setdefault('escaped', set())
 
     def take(self):
         p, self.pending = self.pending, []
@@ -338,12 +411,21 @@ def coerce(term, ty, want, node, env):
     raise U(node, env.path, f'type mismatch: {ast.unparse(node)} has type {ty}, expected {want}')
 
 
-def ann_type(a, node, path):
+def ann_type(a, node, path, mod=None):
     if a is None:
         raise U(node, path, 'missing annotation')
     s = ast.unparse(a)
     if s == 'Any':
         return None
+    # Callable[[T1, ..., Tn], R] (typing.Callable, n >= 1): a pure function value
+    if isinstance(a, ast.Subscript) and isinstance(a.value, ast.Name) and a.value.id == 'Callable' and mod is not None \
+            and mod.imports.get('Callable') == ('foreign', 'typing.Callable') and isinstance(a.slice, ast.Tuple) \
+            and len(a.slice.elts) == 2 and isinstance(a.slice.elts[0], ast.List) and a.slice.elts[0].elts:
+        args = [ann_type(x, x, path) for x in a.slice.elts[0].elts]
+        ret = ann_type(a.slice.elts[1], a.slice.elts[1], path)
+        if any(t is None or t == UNIT for t in args) or ret is None or ret == UNIT:
+            raise U(a, path, f'annotation {s}')
+        return TFun(args, ret)
     if s not in ANN:
         raise U(a, path, f'annotation {s}')
     return ANN[s]
@@ -389,8 +471,26 @@ def tr_expr(e, env, want=None):
         raise U(e, path, f'constant {v!r}')
     if isinstance(e, ast.Name):
         if e.id in env.vars:
+            if e.id in env.fresh_lists:                   # from now on the list / set object may be reachable elsewhere
+                env.state.setdefault('escaped', set()).add(env.fresh_lists[e.id])
             return env.vars[e.id]
+        if is_fun(want):
+            return fun_value(e, env, want), want
         raise U(e, path, f'name {e.id} used as a value')
+    if isinstance(e, ast.Lambda):
+        if not is_fun(want):
+            raise U(e, path, 'lambda where no function type is expected')
+        a = e.args
+        if a.vararg or a.kwarg or a.kwonlyargs or a.posonlyargs or a.defaults or len(a.args) != len(want[1]) \
+                or len({x.arg for x in a.args}) != len(a.args):
+            raise U(e, path, f'lambda parameters do not fit {want}')
+        sub = env.child()
+        sub.pending = env.pending
+        names = [sub.bind_var(x.arg, t, e) for x, t in zip(a.args, want[1])]
+        for x in a.args:
+            sub.localfuns.pop(x.arg, None)
+        body, _ = guarded(sub, lambda: tr(e.body, sub, want[2]))
+        return f'(fun {" ".join(names)} => {body})', want
     if isinstance(e, ast.Attribute):
         return tr_attribute(e, env)
     if isinstance(e, ast.Call):
@@ -464,6 +564,22 @@ def tr_expr(e, env, want=None):
         src = comp_source(g, env, sub, var)
         return app('map', f'(fun {var} => ({k}, {v}))', src), TDict(vt)
     raise U(e, path, f'expression {type(e).__name__}: {ast.unparse(e)}')
+
+
+def fun_value(e, env, want):
+    """a function name used as a value where the function type `want` is expected: a nested def or a translated
+    module-level function, pure (cannot raise), with exactly the expected parameter types and result type"""
+    if e.id in env.localfuns:
+        sig, term = env.localfuns[e.id], env.localfuns[e.id].coqname
+    else:
+        r = env.gen.resolve(env.mod, e.id)
+        if not (r and r[0] == 'func'):
+            raise U(e, env.path, f'name {e.id} used as a function value')
+        sig = env.gen.function(r[1], r[2], e, env.path)
+        term = f'{sig.coqname} K'
+    if sig.monadic or tuple(t for _, t in sig.params) != want[1] or sig.ret != want[2]:
+        raise U(e, env.path, f'function {e.id} used as a value of type {want}: it can raise or has another signature')
+    return term
 
 
 def join(a, b, node, env):
@@ -606,6 +722,11 @@ def tr_call(e, env, want=None):
         if r is None:
             return tr_builtin(n, e, env, want)
         return tr_global_call(r, e, env, want)
+    if isinstance(f, ast.Name) and is_fun(env.vars[f.id][1]):
+        v, vt = env.vars[f.id]                                   # call of a function-valued parameter: pure
+        if e.keywords or len(e.args) != len(vt[1]) or any(isinstance(a, ast.Starred) for a in e.args):
+            raise U(e, path, f'call of {f.id} with keyword / a wrong number of arguments')
+        return app(v, *[tr(a, env, t)[0] for a, t in zip(e.args, vt[1])]), vt[2]
     if isinstance(f, ast.Attribute):
         if isinstance(f.value, ast.Name) and f.value.id not in env.vars:
             imp = env.mod.imports.get(f.value.id)
@@ -671,9 +792,25 @@ def tr_global_call(r, e, env, want):
                             isinstance(it.func, ast.Name) and it.func.id == 'enumerate' and len(it.args) == 1 \
                             and not it.keywords and gen.resolve(env.mod, 'enumerate') is None:
                         return app('enum_mapping', tr(it.args[0], env, TList(LABEL))[0]), MAPPING
-            raise U(e, path, 'LabelMapping(...) other than LabelMapping({k: v for v, k in enumerate(L)})')
+            # LabelMapping(dict(zip(X, range(len(X)))))  with X a local list of labels: the same dict  ->  enum_mapping X
+            if len(e.args) == 1 and not e.keywords and builtin_call(e.args[0], env, 'dict', 1) \
+                    and builtin_call(e.args[0].args[0], env, 'zip', 2):
+                x, rg = e.args[0].args[0].args
+                if isinstance(x, ast.Name) and x.id in env.vars and env.vars[x.id][1] == TList(LABEL) \
+                        and builtin_call(rg, env, 'range', 1) and builtin_call(rg.args[0], env, 'len', 1) \
+                        and isinstance(rg.args[0].args[0], ast.Name) and rg.args[0].args[0].id == x.id:
+                    return app('enum_mapping', env.vars[x.id][0]), MAPPING
+            raise U(e, path, 'LabelMapping(...) other than LabelMapping({k: v for v, k in enumerate(L)}) / '
+                             'LabelMapping(dict(zip(X, range(len(X)))))')
         raise U(e, path, f'constructor {cname}(...)')
     raise U(e, path, f'call of {ast.unparse(e.func)} ({r[0]})')
+
+
+def builtin_call(x, env, name, nargs):
+    """is x the call `name(a1, ..., a_nargs)` of the (unshadowed) builtin `name`, without keyword / starred arguments?"""
+    return isinstance(x, ast.Call) and isinstance(x.func, ast.Name) and x.func.id == name and name not in env.vars \
+        and name not in env.localfuns and env.gen.resolve(env.mod, name) is None and not x.keywords \
+        and len(x.args) == nargs and not any(isinstance(a, ast.Starred) for a in x.args)
 
 
 def tr_builtin(n, e, env, want):
@@ -681,6 +818,22 @@ def tr_builtin(n, e, env, want):
     if e.keywords:
         raise U(e, path, f'{n}(...) with keyword arguments')
     a = e.args
+    if n == 'next' and len(a) == 2 and isinstance(a[1], ast.Constant) and a[1].value is None \
+            and builtin_call(a[0], env, 'filter', 2):
+        # next(filter(f, L), None): the first element of L satisfying the pure predicate f
+        src, sty = tr_expr(a[0].args[1], env)
+        if not (isinstance(sty, tuple) and sty[0] == 'list' and sty[1] is not None):
+            raise U(e, path, f'filter over a value of type {sty}')
+        pred, _ = tr(a[0].args[0], env, TFun([sty[1]], BOOL))
+        return app('find', pred, src), TOpt(sty[1])
+    if n == 'dict' and builtin_call(e, env, 'dict', 1) and builtin_call(a[0], env, 'zip', 2):
+        # dict(zip(KEYS, VALUES)): association list in insertion order (zip stops at the shorter list, as `combine`);
+        # d[k] reads the LAST entry of k (dict_item), exactly as for the dict comprehension
+        ks, _ = tr(a[0].args[0], env, TList(LABEL))
+        vs, vty = tr_expr(a[0].args[1], env)
+        if not (isinstance(vty, tuple) and vty[0] == 'list' and vty[1] is not None):
+            raise U(e, path, f'dict(zip(_, V)) with V of type {vty}')
+        return app('combine', ks, vs), TDict(vty[1])
     if n == 'len' and len(a) == 1:
         t, ty = tr_expr(a[0], env)
         if ty == SET:
@@ -889,6 +1042,9 @@ def tr_stmts(stmts, env):
         else:
             b = tr_stmts(rest, env)
         return wrap(pend, f'if {c} then {a}\n  else {b}')
+    if isinstance(st, ast.Assign) and len(st.targets) == 1 and isinstance(st.targets[0], ast.Name) \
+            and isinstance(st.value, ast.List) and not st.value.elts and rest and isinstance(rest[0], ast.For):
+        return tr_acc_loop(st.targets[0], rest[0], rest[1:], env)
     if isinstance(st, ast.Assign):
         if len(st.targets) != 1:
             raise U(st, path, 'chained assignment')
@@ -897,13 +1053,14 @@ def tr_stmts(stmts, env):
         pend = env.take()
         if isinstance(tg, ast.Name):
             v = st.value
-            if isinstance(v, ast.ListComp) or (isinstance(v, ast.Call) and isinstance(v.func, ast.Name) and v.func.id == 'list'
-                                               and v.func.id not in env.vars and env.gen.resolve(env.mod, 'list') is None):
-                env.fresh_lists.add(tg.id)        # a new list object, not shared with any input
+            if isinstance(v, (ast.ListComp, ast.SetComp)) or builtin_call(v, env, 'list', 1) or builtin_call(v, env, 'set', 1):
+                env.fresh_lists[tg.id] = object()        # a new list / set object, not shared with any input
             else:
-                env.fresh_lists.discard(tg.id)
+                env.fresh_lists.pop(tg.id, None)
         return wrap(pend, f'let {bind_target(tg, ty, env)} := {t} in\n  {tr_stmts(rest, env)}')
     if isinstance(st, ast.Expr):
+        if isinstance(st.value, ast.Call) and isinstance(st.value.func, ast.Attribute) and st.value.func.attr == 'update':
+            return _update_then(st, rest, env)
         return _remove_then(st, rest, env)
     if isinstance(st, ast.FunctionDef):
         name, lam, sig = tr_nested_def(st, env)
@@ -938,15 +1095,122 @@ def _remove_then(st, rest, env):
             isinstance(c.func.value, ast.Name) and c.func.value.id in env.vars and len(c.args) == 1 and not c.keywords \
             and env.vars[c.func.value.id][1] == TList(BRANCH):
         x = c.func.value.id
-        if x not in env.fresh_lists:
-            raise U(st, env.path, f'{x}.remove(...) on a list that may be shared with an input (not bound by list(...) / a '
-                                  f'comprehension): the model has no aliasing')
+        if not env.is_private_object(x):
+            raise U(st, env.path, f'{x}.remove(...) on a list that may be shared (not bound by list(...) / a comprehension, '
+                                  f'or already used as a value): the model has no aliasing')
         old = env.vars[x][0]
         a, _ = tr(c.args[0], env, BRANCH)
         pend = env.take()
         new = env.bind_var(x, TList(BRANCH), c)
         return wrap(pend, f'let {new} := {app("remove_first", a, old)} in\n  {tr_stmts(rest, env)}')
     raise U(st, env.path, f'expression statement {ast.unparse(st)}')
+
+
+def _update_then(st, rest, env):
+    """s.update(ITERABLE) on a local set of strings that was freshly built in this function (a set comprehension / set(...),
+    so the mutation cannot be seen through any other name): s becomes s | set(ITERABLE).  ITERABLE: a generator expression
+    (one `for`, at most one `if`), a list of strings or a set."""
+    c = st.value
+    if not (isinstance(c.func.value, ast.Name) and c.func.value.id in env.vars and len(c.args) == 1 and not c.keywords
+            and not isinstance(c.args[0], ast.Starred) and env.vars[c.func.value.id][1] == SET):
+        raise U(st, env.path, f'expression statement {ast.unparse(st)}')
+    x = c.func.value.id
+    if not env.is_private_object(x):
+        raise U(st, env.path, f'{x}.update(...) on a set that may be shared (not bound by a set comprehension / set(...), '
+                              f'or already used as a value)')
+    old = env.vars[x][0]
+    a = c.args[0]
+    if isinstance(a, ast.GeneratorExp):
+        fn, src, _, ety = tr_comprehension(a, env)
+        if ety != LABEL:
+            raise U(a, env.path, 'generator whose elements are not strings')
+        new_elems = app('set_of_list', src if fn is None else app('map', fn, src))
+    else:
+        t, ty = tr_expr(a, env)
+        if ty == SET:
+            new_elems = t
+        elif ty == TList(LABEL):
+            new_elems = app('set_of_list', t)
+        else:
+            raise U(a, env.path, f'{x}.update(...) with an argument of type {ty}')
+    pend = env.take()
+    new = env.bind_var(x, SET, c)
+    return wrap(pend, f'let {new} := {app("set_union", old, new_elems)} in\n  {tr_stmts(rest, env)}')
+
+
+def tr_acc_loop(tg, loop, rest, env):
+    """acc = []
+       for x in L: BODY            ->   let acc' := flat_map (fun x' => <list of the values BODY appends, in order>) L in ...
+    BODY (one iteration; every expression in it is pure, `acc` is only touched by acc.append):
+       acc.append(E) | v = E (v a new local of the iteration) | continue (last statement of its block)
+       | if C: B1 [else: B2]   (followed by more statements only when B1 ends in `continue`, or when there is an else
+                                branch and B1 ends in `continue`)
+    The loop variable and the locals of the body are not visible after the loop (any later use is refused), and the body
+    cannot assign a variable that exists outside the loop (no loop-carried state other than `acc`)."""
+    path = env.path
+    acc = tg.id
+    if loop.orelse or not isinstance(loop.target, ast.Name) or getattr(loop, 'type_comment', None):
+        raise U(loop, path, 'for loop with an else branch / a target that is not a name')
+    x = loop.target.id
+    if x == acc or x in env.vars or x in env.localfuns:
+        raise U(loop, path, f'loop variable {x} rebinds an existing name')
+    src, sty = tr_expr(loop.iter, env)
+    if not (isinstance(sty, tuple) and sty[0] == 'list' and sty[1] is not None):
+        raise U(loop.iter, path, f'for loop over a value of type {sty}')
+    pend = env.take()
+    be = env.child()
+    be.pending = []
+    be.nolift += 1
+    be.vars.pop(acc, None)          # `acc` cannot be read inside the body
+    be.localfuns.pop(acc, None)
+    be.localfuns.pop(x, None)
+    xv = be.bind_var(x, sty[1], loop.target)
+    st = {'ty': None}
+
+    def body(stmts, e):
+        if not stmts:
+            return '[]'
+        s, more = stmts[0], stmts[1:]
+        if isinstance(s, ast.Continue):
+            if more:
+                raise U(more[0], path, 'statement after continue')
+            return '[]'
+        if isinstance(s, ast.Expr) and isinstance(s.value, ast.Call) and isinstance(s.value.func, ast.Attribute) \
+                and s.value.func.attr == 'append' and isinstance(s.value.func.value, ast.Name) \
+                and s.value.func.value.id == acc and len(s.value.args) == 1 and not s.value.keywords \
+                and not isinstance(s.value.args[0], ast.Starred):
+            t, ty = tr_expr(s.value.args[0], e)
+            if (isinstance(ty, tuple) and ty[0] in ('int', 'fun')) or ty == TList(None):
+                raise U(s, path, f'cannot type the elements of {acc}')
+            if st['ty'] is None:
+                st['ty'] = ty
+            elif st['ty'] != ty:
+                raise U(s, path, f'{acc}.append of values of different types')
+            return f'{par(t)} :: {body(more, e)}'
+        if isinstance(s, ast.Assign) and len(s.targets) == 1:
+            names = assigned_names([s], e)
+            for n in names:
+                if n == acc or n == x or n in env.vars or n in env.localfuns:
+                    raise U(s, path, f'assignment to {n} inside the loop: it exists outside the iteration')
+            t, ty = tr_expr(s.value, e)
+            return f'let {bind_target(s.targets[0], ty, e)} := {t} in\n    {body(more, e)}'
+        if isinstance(s, ast.If):
+            c, _ = tr(s.test, e, BOOL)
+            ends = bool(s.body) and isinstance(s.body[-1], ast.Continue)
+            if more and not ends:
+                raise U(s, path, '`if` inside the loop body that is followed by more statements and does not end in continue')
+            a = body(s.body, e.child_of_loop())
+            b = body(s.orelse + more, e.child_of_loop())
+            return f'if {c} then {a}\n    else {b}'
+        raise U(s, path, f'statement {type(s).__name__} in the body of an accumulating for loop')
+
+    t = body(loop.body, be)
+    if st['ty'] is None:
+        raise U(loop, path, f'for loop that never appends to {acc}')
+    env.localfuns.pop(acc, None)
+    new = env.bind_var(acc, TList(st['ty']), tg)
+    env.fresh_lists[acc] = object()
+    return wrap(pend, f'let {new} := flat_map (fun {xv} => {t}) {par(src)} in\n  {tr_stmts(rest, env)}')
 
 
 def fun_params(fdef, env, self_ty=None):
@@ -960,7 +1224,7 @@ def fun_params(fdef, env, self_ty=None):
                 raise U(fdef, env.path, f'{fdef.name}: first parameter of a method is not self')
             params.append((x.arg, self_ty))
         else:
-            ty = ann_type(x.annotation, x, env.path)
+            ty = ann_type(x.annotation, x, env.path, env.mod)
             if ty is None:
                 raise U(x, env.path, f'parameter {x.arg}: Any')
             params.append((x.arg, ty))
@@ -981,6 +1245,11 @@ def tr_nested_def(fdef, env):
     body = tr_stmts(fdef.body, sub)
     if sub.state['monadic']:
         raise U(fdef, env.path, f'nested function {fdef.name} can raise')
+    # the translation closes over the CURRENT values of the enclosing locals; Python closures see later rebindings, so those
+    # are refused (Env.bind_var) for every enclosing local the body may read
+    pnames = {p for p, _ in params}
+    env.captured |= {n.id for n in ast.walk(fdef) if isinstance(n, ast.Name) and isinstance(n.ctx, ast.Load)
+                     and n.id in env.vars and n.id not in pnames}
     env.state['tmp'] = sub.state['tmp']
     if not ident_ok(fdef.name):
         raise U(fdef, env.path, f'identifier {fdef.name!r}')
@@ -1133,6 +1402,9 @@ class Gen:
             cty = f'res ({coq_ty(rty)})' if monadic else coq_ty(rty)
             self.emit(mod.coqmod, f'(* {os.path.basename(mod.path)}:{fdef.lineno} {fdef.name} *)\n'
                                   f'Definition {shortname} (K : fops) {binders} : {cty} :=\n  {body}.')
+            if self_ty is None and is_private(shortname):
+                # a private helper is a definition of its own; the hint lets the proofs about its (public) callers see through it
+                self.emit(mod.coqmod, f'#[global] Hint Unfold {shortname} : py_private.')
             sig = Sig(f'{mod.coqmod}.{shortname}', params, rty, monadic, defaults)
             self.sigs[k] = sig
             return sig
@@ -1365,6 +1637,15 @@ class Gen:
                         if any(isinstance(t, ast.Attribute) for t in tg):
                             raise U(n, m.path, 'attribute assignment outside __post_init__')
 
+    def is_static_helper(self, mod, f):
+        """`@staticmethod def _name(...)` in one of the solution classes: a helper without access to the solution object.
+        It is NOT translated.  The only way translated code could reach it is `self._name` / `Class._name`, and both are
+        refused (`member` accepts property / abstractmethod only; attributes of a class name are refused), so it can only
+        belong to the deliberately untranslated part (__post_init__, the linear solve)."""
+        d = f.decorator_list
+        return (len(d) == 1 and isinstance(d[0], ast.Name) and d[0].id == 'staticmethod' and self.resolve(mod, 'staticmethod') is None
+                and f.name.startswith('_') and not f.name.startswith('__'))
+
     def sol_mapper_default(self, field, node, path):
         k = ('py_nodal', f'{SOL_BASE}__default_{field}')
         if k not in self.sigs:
@@ -1417,7 +1698,9 @@ class Gen:
                 elif (cname, key) in ((SOL_BASE, 'solution'), (SOL_SUB, 'bias_point_analysis')):
                     self.check_solution_classes()
                     for m, f in self.class_methods(mod, cname).items():
-                        if m in SKIP_METHODS.get(cname, ()) or 'abstractmethod' in decorators(f, mod.path, ('property', 'abstractmethod')):
+                        if m in SKIP_METHODS.get(cname, ()) or self.is_static_helper(mod, f):
+                            continue
+                        if 'abstractmethod' in decorators(f, mod.path, ('property', 'abstractmethod')):
                             continue
                         self.member(SOL_SUB, m, c, mod.path)
                 elif self.is_exception_class(key, cname):
@@ -1425,7 +1708,8 @@ class Gen:
                 else:
                     raise U(c, mod.path, f'class {cname}')
             for name in mod.funcs:
-                if name not in SKIP_FUNCS[key]:
+                # private helpers (_name) are translated on demand, when a translated definition calls them
+                if name not in SKIP_FUNCS[key] and not is_private(name):
                     self.function(key, name, mod.funcs[name], mod.path)
             for a, target in mod.aliases.items():
                 r = self.resolve(mod, a)
@@ -1434,6 +1718,10 @@ class Gen:
                 sig = self.function(r[1], r[2])
                 self.emit(coqmod, f'(* {a} = {target} *)\nDefinition {a} (K : fops) := {sig.coqname} K.')
         self.cur = []
+        # private helpers no translated definition refers to: they belong to the untranslated part (SKIP_*); named in the output
+        self.unreached = [f'{os.path.basename(self.mods[key].path)}: {name}' for key, _, _ in FILES
+                          for name in self.mods[key].funcs
+                          if is_private(name) and (self.mods[key].coqmod, name) not in self.sigs]
 
     def text(self):
         L = ['(* GENERATED by tools/gen_network.py from /repo/src/CircuitCalculator/Network — do not edit.',
@@ -1444,12 +1732,18 @@ class Gen:
              '   Every definition is proved equal to the hand-written model in Theory/NetworkGenThm.v. *)',
              'From Coq Require Import List Bool NArith Arith.',
              'From CC Require Import Theory.Field Model.Network Model.Transformers Model.NetworkPrims.',
-             'Import ListNotations.', '']
+             'Import ListNotations.',
+             '(* unfolding hints for the module-private helper functions (def _name) of the source, filled below *)',
+             'Create HintDb py_private.', '']
         for c in self.coqmods:
             L.append(f'Module {c}.')
             L.extend(self.out[c])
             L.append(f'End {c}.')
             L.append('')
+        if self.unreached:
+            L.append('(* private helpers that no translated definition calls (used by untranslated code only), not translated:')
+            L.extend(f'     {u}' for u in self.unreached)
+            L.append('*)')
         L.append('(* what each `except ZeroDivisionError` handler returns: (class, property, inf | nan) *)')
         L.append('Definition zero_division_values : list (label * label * label) := [')
         L.append(';\n'.join(f'  ({S(c)}, {S(a)}, {S(v)}) (* {c}.{a}: np.{v} *)' for c, a, v in self.excvals))
